@@ -16,7 +16,7 @@ for d in $seeds; do
   [ "$kept" = "True" ] || continue
   if ! echo " $claimed " | grep -q " $prop "; then echo -e "$id\t$prop\tnot-claimed\t-\t-"; continue; fi
   git -C $WT checkout -q -- . ; git -C $WT clean -fdq
-  if ! git -C $WT apply $d/patch.diff 2>/dev/null; then echo -e "$id\t$prop\tpatch-does-not-apply\t-\t-"; continue; fi
+  if ! git -C $WT apply /verif/$d/patch.diff 2>/dev/null; then echo -e "$id\t$prop\tpatch-does-not-apply\t-\t-"; continue; fi
   s=$(date +%s)
   bin/govc check -prop $prop -tier quick -repo $WT -verif $ALT > $ALT/$id.log 2>&1; rc=$?
   e=$(date +%s)
